@@ -5,6 +5,14 @@ staking action handlers), and of a converter in general. Definitions only (core 
 import YouVerif.C17.Model
 namespace YouVerif.C17
 
+/-- equality of `Except` values is decidable (used by the literal tests / witnesses) -/
+instance instDecEqExcept {ε α : Type} [DecidableEq ε] [DecidableEq α] : DecidableEq (Except ε α) := fun a b =>
+  match a, b with
+  | .ok x, .ok y => if h : x = y then isTrue (by rw [h]) else isFalse (by intro e; cases e; exact h rfl)
+  | .error x, .error y => if h : x = y then isTrue (by rw [h]) else isFalse (by intro e; cases e; exact h rfl)
+  | .ok _, .error _ => isFalse (by intro e; cases e)
+  | .error _, .ok _ => isFalse (by intro e; cases e)
+
 /-- What `ApplyMessageEntry` relies on from a `TxConverter` (for one message), part 1: it returns no more gas
 than it was given, and its errors are not among the up-front refusal reasons. -/
 structure ConvSafe (conv : Converter) (m : Msg) : Prop where
